@@ -176,4 +176,22 @@ theorem C08_history (rnd : Rat → Rat) (ctl : Ctl) (s : Option CState) (es : Li
   rw [hj]
   exact C08_oldest rnd o k ctl.globalDry r.cfg r.pre r.preG r.view h r.nowMock r.nowReal hu
 
+/-- **C08 (no silent skip).** The only exemption of the property is a taint write that "was attempted and failed". A node
+    whose fetch succeeded and whose fetched copy carries no escalator taint always gets its write attempted: the
+    journal of `AddToBeRemovedTaint` contains an UPDATE of that very object with the stamped taint appended, and the
+    reported outcome is the outcome of that UPDATE — such a node is never counted as tainted without a write, whatever
+    other taints (with whatever keys) it carries. (The implementation-side oracle `C08.skippedBad` is this statement.) -/
+theorem C08_clean_fetch_is_written (o : Oracle) (k : Nat) (nowSec : Int) (effect : String) (c u : Node)
+    (hg : (k8sGet o k c.name).val = some u) (hclean : hasTaint escKey u = false) :
+    ∃ b, (⟨.updateNode { u with taints := u.taints ++ [newEscTaint nowSec effect] }, b⟩ : Entry) ∈ (addTaint o k nowSec effect c).j ∧
+      (addTaint o k nowSec effect c).val = b := by
+  obtain ⟨b, hj, hv⟩ := doPlain_j o (k8sGet o k c.name).k (.updateNode { u with taints := u.taints ++ [newEscTaint nowSec effect] })
+  refine ⟨b, ?_, ?_⟩
+  · unfold addTaint; dsimp only
+    simp only [hg, hclean, Bool.false_eq_true, if_false]
+    rw [hj]; simp
+  · unfold addTaint; dsimp only
+    simp only [hg, hclean, Bool.false_eq_true, if_false]
+    exact hv
+
 end Esc.P
